@@ -84,6 +84,30 @@ def marginal_distribution(U: np.ndarray, n_keep: int, ins) -> dict:
     return d
 
 
+def halmos_dilation(T: np.ndarray) -> np.ndarray:
+    """Smallest unitary dilation of a contraction T (n x n): a 2n x 2n unitary whose leading block is T.
+    The marginal photon statistics on the first n modes of ANY unitary dilation of T are the same, so this
+    gives the exact lossy distribution from the n x n transfer matrix alone, however many loss elements
+    the circuit is made of."""
+    T = np.asarray(T, dtype=complex)
+    n = T.shape[0]
+    Uu, sv, Vh = np.linalg.svd(T)
+    sv = np.clip(sv, 0.0, 1.0)
+    c = np.sqrt(1 - sv ** 2)
+    D = np.zeros((2 * n, 2 * n), dtype=complex)
+    D[:n, :n] = T
+    D[:n, n:] = (Uu * c) @ Uu.conj().T                    # sqrt(I - T T^dagger)
+    D[n:, :n] = (Vh.conj().T * c) @ Vh                    # sqrt(I - T^dagger T)
+    D[n:, n:] = -T.conj().T
+    return D
+
+
+def lossy_marginal(T: np.ndarray, ins) -> dict:
+    """Exact distribution over the n modes of transfer matrix T (a contraction) for Fock input ins."""
+    n = T.shape[0]
+    return marginal_distribution(halmos_dilation(T), n, list(ins) + [0] * n)
+
+
 # ---------------------------------------------------------------- unitaries
 def haar_unitary(k: int, seed: int) -> np.ndarray:
     rng = np.random.default_rng([seed, k, 7919])
@@ -531,6 +555,21 @@ def selftest() -> None:
     p.add(c, 0)
     if abs(p.heralded_amp([1, 0], [1, 0]) - 0.8) > 1e-12 or len(p.loss) != 1:
         raise RuntimeError("refmodel: lossy add self-test failed")
+    # Halmos dilation: unitary, leading block T, same marginal as an explicit loss dilation
+    w = Wires(2)
+    w.bs(0, 1, 0.3)
+    w.lossel(0, 0.4)
+    w.ps(1, 0.7)
+    w.lossel(1, 0.2)
+    w.bs(1, 0, 0.6, "H")
+    T = w.A[:2, :2]
+    D = halmos_dilation(T)
+    if np.abs(D.conj().T @ D - np.eye(4)).max() > 1e-12:
+        raise RuntimeError("refmodel: Halmos dilation not unitary")
+    a = marginal_distribution(w.A, 2, [2, 1, 0, 0])
+    b = lossy_marginal(T, [2, 1])
+    if max(abs(a.get(k, 0) - b.get(k, 0)) for k in set(a) | set(b)) > 1e-12:
+        raise RuntimeError("refmodel: Halmos marginal self-test failed")
     # detector closed forms, one photon
     d = detector_response({(1,): 1.0}, 0.7, 0.1, True)
     exp = {0: 0.3 * 0.9, 1: 0.7 * 0.9 + 0.3 * 0.1, 2: 0.7 * 0.1}
